@@ -30,6 +30,7 @@ import (
 	"errors"
 	"fmt"
 	"io"
+	"math"
 	"os"
 	"runtime"
 	"sort"
@@ -46,6 +47,11 @@ import (
 )
 
 const maxWalkDepth = 10000
+
+// maxChunkSize is the largest chunk accepted from the layer metadata. A chunk is read into memory as a
+// whole (and copied into the cache), so its size is a buffer size chosen by the image; the builder's
+// default is 4 MiB.
+const maxChunkSize = math.MaxInt32
 
 type Reader interface {
 	OpenFile(id uint32) (io.ReaderAt, error)
@@ -871,7 +877,7 @@ func (gr *reader) verifyChunk(id uint32, p []byte, chunkDigestStr string) error 
 // it must be non-empty, must not wrap around and must contain off, so that the loops over the chunks
 // of a file make progress and the buffers derived from it have a sane, non-negative size.
 func checkChunk(off, chunkOffset, chunkSize int64) error {
-	if chunkOffset < 0 || chunkSize <= 0 || chunkOffset+chunkSize < chunkOffset ||
+	if chunkOffset < 0 || chunkSize <= 0 || chunkSize > maxChunkSize || chunkOffset+chunkSize < chunkOffset ||
 		off < chunkOffset || off >= chunkOffset+chunkSize {
 		return fmt.Errorf("invalid chunk (offset:%d,size:%d) for file offset %d", chunkOffset, chunkSize, off)
 	}
